@@ -584,16 +584,32 @@ func doCheck(repo, verif, prop string, pc propConf, tier string, seed uint64, wo
 		}(d)
 	}
 	wg.Wait()
+	// A worker that died (watchdog, out of memory) means this invocation cannot say "held": exit 2.
+	// Violations that the surviving workers found are reported all the same, but only if they
+	// reproduce from their replay files in a fresh process (the same rule as for a determinism
+	// mismatch below): a change that makes one run stall for minutes of wall-clock must not hide
+	// the deterministic violations it causes in other runs.
+	workerTrouble := ""
 	if werr != nil || detErr != nil {
 		if werr == nil {
 			werr = detErr
 		}
 		fmt.Fprintf(os.Stderr, "vcheck: %v\n", werr)
-		cleanup()
-		return 2
+		found := 0
+		for _, s := range sums {
+			found += len(s.Violations)
+		}
+		if found == 0 {
+			cleanup()
+			return 2
+		}
+		workerTrouble = strings.SplitN(werr.Error(), "\n", 2)[0]
 	}
 	detChecked := 0
 	detMismatch := ""
+	if det[0] == nil || det[1] == nil {
+		det[0], det[1] = &summary{}, &summary{}
+	}
 	for k, h := range det[0].DetHashes {
 		if h2, ok := det[1].DetHashes[k]; !ok || h2 != h {
 			// Two processes disagreed on the same run. Either the machinery is not deterministic or
@@ -788,6 +804,14 @@ func doCheck(repo, verif, prop string, pc propConf, tier string, seed uint64, wo
 	if len(unrepro) > 0 && exit == 0 {
 		cleanup()
 		return 2
+	}
+	if workerTrouble != "" {
+		if exit == 0 {
+			fmt.Fprintf(os.Stderr, "vcheck: a worker process failed (%s) and no violation was confirmed\n", workerTrouble)
+			cleanup()
+			return 2
+		}
+		fmt.Printf("vcheck: note: a worker process failed (%s); the reported violations reproduced from their replay files in a fresh process\n", workerTrouble)
 	}
 	if detMismatch != "" {
 		if exit == 0 {
